@@ -23,6 +23,8 @@ SEEDS = [
     ('alert_level', "s: ^", "`x`\n"),
     ('constant_content', "s: `", "`\n"),
     ('params', "s(", "): 'a'\n"),
+    ('param_literal_prefix', "s[True", "]: 'a'\n"),
+    ('kwparam_literal_prefix', "s(k=null", "): 'a'\n"),
     ('leading', "", "s: 'a'\n"),
     ('directive_value', "@@nameguard :: ", "\ns: 'a'\n"),
     ('between_rules', "s: 'a'\n", "\nr: 'b'\n"),
@@ -30,7 +32,8 @@ SEEDS = [
     ('group_content', "s: (", ")\n"),
     ('optional_q', "s: 'a'", "\n"),
 ]
-QUICK = ['expr_start', 'prefix_op', 'naming_op', 'rule_def_op', 'rule_def_op_bnf', 'alert_level', 'params', 'leading']
+QUICK = ['expr_start', 'prefix_op', 'naming_op', 'rule_def_op', 'rule_def_op_bnf', 'alert_level', 'params', 'leading', 'param_literal_prefix']
+REGEN_QUICK = ['param_literal_prefix', 'rule_def_op']      # seeds that also run the parser regenerated from _tatsu.ebnf in the quick tier
 
 
 def norm(v):
@@ -138,7 +141,7 @@ def obligations(tier, seed, group='boot'):
     for nm, pre, post in SEEDS:
         if nm not in names:
             continue
-        obs.append(Ob(name=f'hole1_{nm}', factory='vt.props.c15:make_boot', spec={'program': nm, 'pre': pre, 'post': post, 'k': 1, 'regen': tier != 'quick'},
+        obs.append(Ob(name=f'hole1_{nm}', factory='vt.props.c15:make_boot', spec={'program': nm, 'pre': pre, 'post': post, 'k': 1, 'regen': tier != 'quick' or nm in REGEN_QUICK},
                       params=[('c0', 0, UNI)], budget=360 if tier == 'quick' else 1800, per_path=120, group=group, require_tags=('rejected',)))
     if tier != 'quick':
         for nm, pre, post in SEEDS[:6]:
